@@ -4,6 +4,7 @@ CONSTANTS MultipliedEndForNominal <- Off
           FirstAfterIgnoresEnd <- On
           MaxTake = 6
           ShiftMovesStoredPoints <- Off
+          WinSpecs <- NoWins
           Shifts <- NoShifts
           Intervals <- ExactOnly
           Fmts <- F13
